@@ -79,7 +79,41 @@ class TT:
         gt, gf = self._guard(test, G)
         return (gf, gt) if neg else (gt, gf)
 
+    def _is_core(self, e):
+        return isinstance(e, ast.Name) and isinstance(self.env.get(e.id), tuple) and self.env[e.id][0] == "core"
+
     def _guard(self, test, G):
+        if isinstance(test, ast.BoolOp):
+            # short-circuit composition; the no-boundary test is only understood on its own
+            if isinstance(test.op, ast.Or):
+                gt_all, rest = frozenset(), G
+                for v in test.values:
+                    gt, gf = self.guard(v, rest)
+                    if isinstance(gt, tuple) or isinstance(gf, tuple):
+                        raise Undecided(f"guard `{U(test)[:50]}`")
+                    gt_all, rest = gt_all | gt, gf
+                return gt_all, rest
+            gf_all, rest = frozenset(), G
+            for v in test.values:
+                gt, gf = self.guard(v, rest)
+                if isinstance(gt, tuple) or isinstance(gf, tuple):
+                    raise Undecided(f"guard `{U(test)[:50]}`")
+                gf_all, rest = gf_all | gf, gt
+            return rest, gf_all
+        if self._is_core(test):                                      # `if new_jordans:` -- some boundary piece survives
+            return G, ("noboundary", self.env[test.id][1], G)
+        if isinstance(test, ast.Call) and isinstance(test.func, ast.Name) and test.func.id in ("len", "bool") \
+                and len(test.args) == 1 and self._is_core(test.args[0]):
+            return G, ("noboundary", self.env[test.args[0].id][1], G)
+        if isinstance(test, ast.Compare) and len(test.ops) == 1 and isinstance(test.left, ast.Call) \
+                and isinstance(test.left.func, ast.Name) and test.left.func.id == "len" and test.left.args \
+                and self._is_core(test.left.args[0]) and isinstance(test.comparators[0], ast.Constant):
+            c, op = test.comparators[0].value, test.ops[0]
+            nob = ("noboundary", self.env[test.left.args[0].id][1], G)
+            if (c == 0 and isinstance(op, (ast.Eq, ast.LtE))) or (c == 1 and isinstance(op, ast.Lt)):
+                return nob, G
+            if (c == 0 and isinstance(op, (ast.NotEq, ast.Gt))) or (c == 1 and isinstance(op, ast.GtE)):
+                return G, nob
         if isinstance(test, ast.Call) and isinstance(test.func, ast.Name) and test.func.id == "isinstance" \
                 and len(test.args) == 2:
             v, c = test.args
@@ -91,7 +125,7 @@ class TT:
                     return frozenset(x for x in G if x in val), G
                 if names == ["EmptyShape"]:
                     return frozenset(x for x in G if x not in val), G
-            return G, G     # other type tests do not restrict the point assignments
+            return G, G     # other type tests (also Empty-or-Whole tuples) do not restrict the point assignments
         if isinstance(test, ast.Compare) and len(test.ops) == 1 and isinstance(test.ops[0], ast.In):
             l, r = test.left, test.comparators[0]
             try:
@@ -117,8 +151,23 @@ class TT:
                 return G
             if isinstance(st, (ast.Assert, ast.Pass)) or (isinstance(st, ast.Expr) and isinstance(st.value, ast.Constant)):
                 continue
+            if isinstance(st, ast.Return) and isinstance(st.value, ast.IfExp):
+                st = ast.copy_location(ast.If(test=st.value.test,
+                                              body=[ast.copy_location(ast.Return(value=st.value.body), st)],
+                                              orelse=[ast.copy_location(ast.Return(value=st.value.orelse), st)]), st)
             if isinstance(st, ast.If):
                 gt, gf = self.guard(st.test, G)
+                if isinstance(gf, tuple):
+                    # `if new_jordans: <boundary case> else / afterwards: <no-boundary exit>`
+                    ft = self.block(st.body, gt)
+                    rest = st.orelse if st.orelse else body[body.index(st) + 1:]
+                    if ft and not st.orelse:
+                        raise Undecided("the boundary case falls through into the no-boundary exit")
+                    self.nob_block(rest, gf)
+                    if st.orelse:
+                        G = ft
+                        continue
+                    return frozenset()
                 if isinstance(gt, tuple):
                     ft = self.nob_block(st.body, gt)
                 else:
@@ -133,7 +182,14 @@ class TT:
                         G = gf
                 continue
             if isinstance(st, ast.Assign) and len(st.targets) == 1 and isinstance(st.targets[0], ast.Name):
-                self.env[st.targets[0].id] = self.expr(st.value)
+                self.env[st.targets[0].id] = self.value(st.value)
+                continue
+            if isinstance(st, ast.AnnAssign) and isinstance(st.target, ast.Name) and st.value is not None:
+                self.env[st.target.id] = self.value(st.value)
+                continue
+            if isinstance(st, ast.AugAssign) and isinstance(st.target, ast.Name):
+                self.env[st.target.id] = self.expr(ast.BinOp(left=ast.Name(id=st.target.id, ctx=ast.Load()), op=st.op,
+                                                             right=st.value))
                 continue
             if isinstance(st, ast.Return):
                 val = self.expr(st.value)
@@ -162,6 +218,13 @@ class TT:
         return frozenset()
 
     # -- expressions
+    def value(self, e):
+        """value of an assigned expression: a shape value, or a collection of curves ('curves', region)"""
+        c = self.curves(e)
+        if c is not None:
+            return ("curves", c)
+        return self.expr(e)
+
     def expr(self, e):
         inf = self.inf
         if isinstance(e, ast.Name):
@@ -188,6 +251,8 @@ class TT:
                 a = e.args[0]
                 if isinstance(a, ast.Name) and isinstance(self.env.get(a.id), tuple) and self.env[a.id][0] == "core":
                     return SPEC[self.env[a.id][1]](self.A, B)       # geometric core, assumed
+                if isinstance(a, ast.Name) and isinstance(self.env.get(a.id), tuple) and self.env[a.id][0] == "curves":
+                    return self.env[a.id][1]
                 v = self.curves(a)
                 if v is not None:
                     return v
@@ -240,6 +305,9 @@ class TT:
              X.jordans / (copy(j) for j in X.jordans)             -> X"""
         if isinstance(a, ast.Call) and isinstance(a.func, ast.Name) and a.func.id in ("tuple", "list") and len(a.args) == 1:
             a = a.args[0]
+        if isinstance(a, ast.Name) and isinstance(self.env.get(a.id), tuple) and self.env[a.id][0] == "curves":
+            return self.env[a.id][1]
+
         def owner(x):
             if isinstance(x, ast.Attribute) and x.attr == "jordans" and isinstance(x.value, ast.Name) \
                     and x.value.id in (self.selfn, self.othn):
@@ -255,6 +323,9 @@ class TT:
                 if pat.is_name(el, g.target.id) or (isinstance(el, ast.Call) and isinstance(el.func, ast.Name)
                                                     and el.func.id == "copy" and pat.is_name(el.args[0], g.target.id)):
                     return own
+        if isinstance(a, ast.Call) and isinstance(a.func, ast.Name) and a.func.id == "map" and len(a.args) == 2 \
+                and isinstance(a.args[0], ast.Name) and a.args[0].id in ("copy", "deepcopy") and owner(a.args[1]) is not None:
+            return owner(a.args[1])
         if isinstance(a, ast.UnaryOp) and isinstance(a.op, ast.Invert) and isinstance(a.operand, ast.Subscript) \
                 and self.cls == "SimpleShape":
             own = owner(a.operand.value)
@@ -531,8 +602,81 @@ def _breaks_after_progress(body, counters, shrink):
     return ok
 
 
-def loop_witness(fn, loop):
+GROW = ("append", "insert", "extend", "add", "update")
+
+
+def _helper_shrinks(ctx, fn, loop):
+    """`while helper(coll): <body that does not grow coll>` where every possibly-true return of the (resolved) helper
+    directly follows the removal of an element of the corresponding parameter, which the helper never grows"""
+    test = loop.test
+    if not isinstance(test, ast.Call) or ctx is None:
+        return None
+    tg = [t for t in ctx.typer.of(fn).targets(test)]
+    if len(tg) != 1:
+        return None
+    g = tg[0]
+    off = 1 if (g.has_self and g.kind != "static" and isinstance(test.func, ast.Attribute)) else 0
+    amap = {g.params[i + off]: a.id for i, a in enumerate(test.args) if isinstance(a, ast.Name) and i + off < len(g.params)}
+    if not amap:
+        return None
+
+    def removes(st):
+        for x in ast.walk(st):
+            if isinstance(x, ast.Call) and isinstance(x.func, ast.Attribute) and x.func.attr in ("pop", "remove") \
+                    and isinstance(x.func.value, ast.Name) and x.func.value.id in amap:
+                return x.func.value.id
+            if isinstance(x, ast.Delete) and any(isinstance(t, ast.Subscript) and isinstance(t.value, ast.Name)
+                                                 and t.value.id in amap for t in x.targets):
+                return [t.value.id for t in x.targets if isinstance(t, ast.Subscript)][0]
+        return None
+
+    def grows(node, names):
+        for x in ast.walk(node):
+            if isinstance(x, ast.Call) and isinstance(x.func, ast.Attribute) and x.func.attr in GROW \
+                    and pat.root_name(x.func.value) in names:
+                return True
+            if isinstance(x, ast.AugAssign) and pat.root_name(x.target) in names:
+                return True
+            if isinstance(x, ast.Assign) and any(isinstance(t, ast.Name) and t.id in names for t in x.targets):
+                return True
+        return False
+    shrunk = set()
+
+    def blocks(body):
+        yield body
+        for st in body:
+            for f in ("body", "orelse", "finalbody"):
+                if isinstance(getattr(st, f, None), list) and getattr(st, f) and isinstance(getattr(st, f)[0], ast.stmt):
+                    yield from blocks(getattr(st, f))
+            for h in getattr(st, "handlers", []):
+                yield from blocks(h.body)
+    nret = 0
+    for body in blocks(g.node.body):
+        for i, st in enumerate(body):
+            if isinstance(st, ast.Return):
+                v = st.value
+                if v is None or (isinstance(v, ast.Constant) and not v.value):
+                    continue
+                nret += 1
+                r = [removes(b) for b in body[:i] if not isinstance(b, (ast.If, ast.For, ast.While, ast.Try))]
+                r = [x for x in r if x]
+                if not r:
+                    return None
+                shrunk |= set(r)
+    if not nret or grows(g.node, set(amap)):
+        return None
+    outer = {amap[p] for p in shrunk}
+    if any(grows(st, outer) for st in loop.body):
+        return None
+    return "helper-shrinking", (f"{g.qname} returns a true value only after removing an element of {sorted(shrunk)}, "
+                                f"never grows it, and the loop body does not grow {sorted(outer)}")
+
+
+def loop_witness(fn, loop, ctx=None):
     """(kind, text) or (None, reason)"""
+    hs = _helper_shrinks(ctx, fn, loop)
+    if hs:
+        return hs
     test = loop.test
     names = {n.id for n in ast.walk(test) if isinstance(n, ast.Name)}
     # collections measured by len() / membership in the test
@@ -609,7 +753,7 @@ def r01_4(ctx):
     for q, fn in sorted(ctx.model.funcs.items()):
         for n in ast.walk(fn.node):
             if isinstance(n, ast.While):
-                kind, txt = loop_witness(fn, n)
+                kind, txt = loop_witness(fn, n, ctx)
                 if kind:
                     out.ok(q, f"while `{U(n.test)[:40]}`: {kind}", where=fn.where(n), detail=txt)
                 else:
